@@ -35,7 +35,21 @@ Bad(rule, info) ==
 
 TrInit == RInit /\ l = 1 /\ cl = 0 /\ nbad = 0
 
-TrCase == /\ IsEv("case") /\ NewCase(e.c) /\ Adv /\ cl' = l /\ nbad' = nbad
+(* a case may carry the tree its condition text was rendered from (C05: redundant parentheses   *)
+(* and extra spaces): the reference grammar must read exactly that tree back                    *)
+RECURSIVE StripPar(_)
+StripPar(c) ==
+  CASE c.t = "par" -> StripPar(c.e)
+    [] c.t \in {"and", "or"} -> [t |-> c.t, l |-> StripPar(c.l), r |-> StripPar(c.r)]
+    [] c.t = "not" -> [t |-> "not", e |-> StripPar(c.e)]
+    [] c.t = "cmp" -> [t |-> "cmp", op |-> c.op, l |-> StripPar(c.l), r |-> StripPar(c.r)]
+    [] OTHER -> c
+RefTreeOk(c) == IF "reftree" \in DOMAIN c /\ "src" \in DOMAIN c /\ IsText(c.src)
+                THEN ParseText(c.src) = StripPar(c.reftree) ELSE TRUE
+TrCase == /\ IsEv("case") /\ NewCase(e.c) /\ Adv /\ cl' = l
+          /\ IF RefTreeOk(e.c) THEN nbad' = nbad
+             ELSE /\ PrintT("JUDGE " \o ToJson([l |-> l, cl |-> l, rule |-> "ref_tree", info |-> [out |-> "spec"], devs |-> <<>>]))
+                  /\ nbad' = nbad + 1
 
 TrSkip == /\ IsEv("skip") /\ Adv /\ Good /\ UNCHANGED rvars
 
